@@ -32,6 +32,9 @@ C(f"{F}:next_statement", params=ST, generator=True, returns=None, requires=NS_RE
       # (C02) ... and what remains is an initial part of the old stack: the column of an accepted dedent WAS an enclosing level
       "implies(is_none(result) and indent_col(state.line, state.pos) <= last(old(state.indents)),"
       "        len(state.indents) <= len(old(state.indents)) and all(state.indents[j] == old(state.indents)[j] for j in range(len(state.indents))))",
+      # a comment-only line is remembered by its number (next_end_tokens: no implicit NEWLINE after it), no other line touches the mark
+      "state.comment_lnum == state.lnum or state.comment_lnum == old(state.comment_lnum)",
+      "implies(state.comment_lnum != old(state.comment_lnum), not is_none(result) and result == True and len(yielded) == 2 and yielded[0].type == Token.COMMENT)",
       # comment / blank lines produce only COMMENT? NL and ask the caller to continue
       "implies(not is_none(result) and result == True, 1 <= len(yielded) <= 2 and yielded[len(yielded) - 1].type == Token.NL)",
   ],
@@ -49,13 +52,13 @@ C(f"{F}:next_statement", params=ST, generator=True, returns=None, requires=NS_RE
                      " and len(yielded) == len(old(state.indents)) - len(state.indents)"
                      " and all(yielded[j].type == Token.DEDENT and yielded[j].start == (state.lnum, state.pos) and yielded[j].end == (state.lnum, state.pos) for j in range(len(yielded))))"],
              "dec": "len(state.indents)"}},
-  modifies=["state.pos", "state.indents"], raises=["IndentationError"],
+  modifies=["state.pos", "state.indents", "state.comment_lnum"], raises=["IndentationError"],
   # (C11) the error names this line, its text, and a 1-based column inside it (character index, not the tab-expanded width)
   raises_ensures=["exc.lineno == state.lnum", "exc.text == state.line", "1 <= exc.offset <= len(state.line) + 1", "exc.end_lineno == state.lnum",
                   "exc.end_offset >= exc.offset", "exc.end_offset <= len(state.line) + 1"],
   properties=["C03", "C08", "C09", "C01", "C02", "C11"])
 
-NL_COND = "(len(state.last_line) > 0 and state.last_line[len(state.last_line) - 1] not in '\\r\\n' and not state.last_line.strip().startswith('#'))"
+NL_COND = "(len(state.last_line) > 0 and state.last_line[len(state.last_line) - 1] not in '\\r\\n' and state.comment_lnum != state.lnum - 1)"
 
 C(f"{F}:next_end_tokens", params=ST, generator=True, requires=["indents_wf(state.indents)"],
   ensures=[
@@ -82,7 +85,7 @@ C(f"{F}:_tokenize", params={"readline": "linesrc"}, generator=True,
       0: {"inv": ["indents_wf(state.indents)", "state.lnum >= 0", "state.end_progs.n >= 0", "lines_left(readline) >= 0"],
           "dec": "2 * lines_left(readline) + (1 if len(state.line) > 0 else 0)",
           "havoc": ["state.pos", "state.max", "state.line", "state.last_line", "state.lnum", "state.parenlev", "state.continued",
-                    "state.end_progs.n", "state.indents", "readline"]},
+                    "state.end_progs.n", "state.indents", "state.comment_lnum", "readline"]},
       # inner scan loop: the cursor strictly advances (this is the obligation the `pos` bug violated)
       1: {"inv": ["0 <= state.pos <= state.max", "state.max == len(state.line)", "indents_wf(state.indents)", "state.end_progs.n >= 0",
                   "state.lnum >= 1", "lines_left(readline) >= 0", "len(state.line) > 0"],
@@ -187,8 +190,9 @@ C(f"{F}:handle_fstring_progs", params={"state": "obj:TokenizerState", "endprog":
   ],
   modifies=["state.pos", "state.parenlev", "state.end_progs.n", "state.end_progs.top", "endprog.text"], raises=[], properties=["C03", "C08", "C10"])
 
+# C09: a single-quoted string goes on to the next line exactly when the physical line ends in backslash + LF or backslash + CRLF
 C(f"{F}:TokenizerState.in_continued_string", params=TS, returns="bool", pure=True, requires=["self.end_progs.n >= 0"],
-  ensures=["implies(result, self.end_progs.n > 0)"], raises=[], properties=["C03", "C10"])
+  ensures=[r"result == (self.end_progs.n > 0 and (self.line[-2:] == '\\\n' or self.line[-3:] == '\\\r\n'))"], raises=[], properties=["C03", "C09", "C10"])
 
 FRAME_OK3 = FRAME_OK + [f"implies({TOP}.mode_kind == 0, {TOP}.pat == 1 and {TOP}.patq == {TOP}.quote and len({TOP}.quote) >= 1)"]
 COLON_ON_BRACES = {f"implies({TOP}.mode_kind == 3, state.end_progs.n >= 2)":
@@ -227,6 +231,9 @@ C(f"{F}:next_psuedo_matches", params=ST, returns="opt[Tok]",
            f"implies(is_none(result) and state.end_progs.n == old(state.end_progs.n) + 1, {TOP}.mode_kind == 0 and {TOP}.text == state.line[old(state.pos):state.pos]"
            f" and {TOP}.start == (state.lnum, old(state.pos)))",
            # C10: an f-string start pushes a literal-text frame at the current bracket depth; ':' at the top level of a field pushes a spec frame
+           # ... a format-spec frame starts empty, right after the ':' (nothing of the source is put into its buffer twice)
+           f"implies(not is_none(result) and state.end_progs.n == old(state.end_progs.n) + 1 and {TOP}.mode_kind == 3, result.string == ':' and {TOP}.text == ''"
+           f" and {TOP}.start == (state.lnum, state.pos) and {TOP}.parenlevel == state.parenlev)",
            f"implies(not is_none(result) and result.type == Token.FSTRING_START, state.end_progs.n == old(state.end_progs.n) + 1 and {TOP}.mode_kind == 1"
            f" and {TOP}.parenlevel == state.parenlev and {TOP}.text == '' and {TOP}.start == (state.lnum, state.pos))",
            ],
